@@ -24,7 +24,8 @@ from . import common
 MODES = {"F": False, "N": None, "T": True}
 REPACK_KEY = "fontTools.ttLib.tables.otBase:USE_HARFBUZZ_REPACKER"
 LEVEL_KEY = "fontTools.otlLib.optimize.gpos:COMPRESSION_LEVEL"
-MAX_RESOLVES = 14  # loop events are recorded in full up to this many resolutions, then cut
+MAX_RESOLVES = 12  # loop events are recorded in full up to this many resolutions, then cut
+STOP_RESOLVES = 22  # ... and the compile is stopped (reported as Timeout) after this many: a deterministic budget
 
 
 class CaseTimeout(BaseException):
@@ -184,6 +185,8 @@ class Recorder:
                 tr["nres"] += 1
             R._ev(a="Resolve", ok=bool(ok), crash="", steps=steps, same=last is e.value,
                   after=summarize(self.table, self.tableTag, font) if tr is not None and tr["nres"] <= MAX_RESOLVES else [])
+            if tr is not None and tr["nres"] >= STOP_RESOLVES:
+                raise CaseTimeout()
             return ok
 
         def fix(kind, orig):
@@ -232,7 +235,7 @@ def base_font_bytes(order, advs=None):
         fb.setupHorizontalHeader(ascent=800, descent=-200)
         fb.setupNameTable({"familyName": "C06", "styleName": "Regular"})
         fb.setupOS2()
-        fb.setupPost(keepGlyphNames=False)
+        fb.setupPost(keepGlyphNames=True)
         bio = io.BytesIO()
         fb.font.save(bio)
         _BASE[key] = bio.getvalue()
@@ -268,7 +271,7 @@ def build_font(case, level):
     for tag in ("GSUB", "GPOS", "GDEF"):
         if tag in font:
             font[tag].ensureDecompiled(recurse=True)
-    if level and kind in ("bin", "ttx"):
+    if level and kind in ("bin", "ttx", "gen"):
         from fontTools.otlLib.optimize.gpos import compact
 
         compact(font, level)
@@ -278,12 +281,16 @@ def build_font(case, level):
 # ---------------------------------------------------------------------------
 # rule sampling -> probe universe
 # ---------------------------------------------------------------------------
+DENSE = [True]
+
+
 def _picks(n, extra=()):
-    """indices into a list of n rules: both ends, the middle pair, eighths, and `extra`"""
+    """indices into a list of n rules: both ends, the middle pair, eighths (dense sampling only), and `extra`"""
     if n <= 0:
         return []
     s = {0, n - 1, n // 2, max(0, n // 2 - 1)}
-    s |= {min(n - 1, (n * k) // 8) for k in range(1, 8)}
+    if DENSE[0]:
+        s |= {min(n - 1, (n * k) // 8) for k in range(1, 8)}
     s |= {i for i in extra if 0 <= i < n}
     return sorted(s)
 
@@ -329,8 +336,14 @@ def sample_glyphs(tag, table, gid, boundary, out, cap=10):
     ll = getattr(table, "LookupList", None)
     if ll is None:
         return
+    DENSE[0] = sum(len(lk.SubTable) for lk in ll.Lookup) <= 8      # many subtables: ends, middle and boundaries only
     for lk in ll.Lookup:
-        for st in _inner(tag, lk):
+        subs = list(_inner(tag, lk))
+        if len(subs) > 24:                         # very many subtables (one rule each, typically): sample the subtables
+            dense, DENSE[0] = DENSE[0], True
+            subs = [subs[i] for i in _picks(len(subs), (1, len(subs) - 2))]
+            DENSE[0] = dense
+        for st in subs:
             name = type(st).__name__
             keys = main_keys(st, gid)
             pos = {k: i for i, k in enumerate(keys)}
@@ -529,6 +542,31 @@ def lookup_probes(M, rng, per_lookup=48):
     return out
 
 
+def _empty_sub(ty, st):
+    if ty in ("sub1", "sub2", "sub3", "pos1", "curs"):
+        return not st["m"]
+    if ty == "sub4":
+        return not st["l"]
+    if ty in ("ctx", "rsub"):
+        return not st["r"]
+    if ty == "pos2":
+        return not (st["p"] if st["f"] == 1 else st["cov"])
+    if ty in ("mkb", "mkm"):
+        return not st["marks"] or not st["bases"]
+    if ty == "mkl":
+        return not st["marks"] or not st["ligs"]
+    return False
+
+
+def prune_empty(layout):
+    """Drop subtables that are empty after the restriction to the probe universe (they can never match, so
+    no lookup's behaviour changes); keeps the TLA+ applicator's recursion over subtables shallow."""
+    for tb in ("gsub", "gpos"):
+        for lk in layout[tb]["lookups"]:
+            lk["st"] = [st for st in lk["st"] if not _empty_sub(lk["ty"], st)]
+    return layout
+
+
 def hb_configs(M):
     from .hb import PLAIN_TAG_BLACKLIST
 
@@ -568,6 +606,30 @@ def hb_observe(data, cfgs, off, seqs, uni):
 # ---------------------------------------------------------------------------
 # the worker
 # ---------------------------------------------------------------------------
+def fill_optional_values(tables):
+    """in-memory PairPos records built by feaLib / importXML may lack the Value1 / Value2 attribute altogether when
+    the value format is 0; the projector reads both: give the missing ones the value None (observation aid only,
+    applied to the pristine build and to decompiled results, never to a font that is compiled afterwards)"""
+    t = tables.get("GPOS")
+    ll = getattr(t, "LookupList", None) if t is not None else None
+    for lk in (ll.Lookup if ll is not None else []):
+        for st in _inner("GPOS", lk):
+            if type(st).__name__ != "PairPos":
+                continue
+            recs = []
+            if st.Format == 1:
+                for ps in st.PairSet:
+                    recs += list(ps.PairValueRecord)
+            elif st.Format == 2:
+                for c1 in st.Class1Record:
+                    recs += list(c1.Class2Record)
+            for r in recs:
+                for a in ("Value1", "Value2"):
+                    if a not in r.__dict__:
+                        setattr(r, a, None)
+    return tables
+
+
 def layout_tables(font):
     return {tag: font[tag].table for tag in ("GSUB", "GPOS", "GDEF") if tag in font and hasattr(font[tag], "table")}
 
@@ -686,7 +748,14 @@ def run_case(arg):
         gmap = {g: gid(g) + 1 for g in names if g in inorder}
         uni = set(gmap.values())
         advs = {g: pristine["hmtx"].metrics[g][0] for g in gmap if "hmtx" in pristine and g in pristine["hmtx"].metrics}
-        M, uns = project_layout(tabs0, gmap, adv=advs)
+        try:
+            M, uns = project_layout(fill_optional_values(tabs0), gmap, adv=advs)
+        except CaseTimeout:
+            raise
+        except Exception as e:
+            result["skip"] = "in-memory tables cannot be projected: %s" % type(e).__name__
+            return result
+        prune_empty(M)
         probes = lookup_probes(M, rng, per_lookup=case.get("per_lookup", 48))
         allseq, seen = [], set()
         for tb in ("gsub", "gpos"):
@@ -708,7 +777,8 @@ def run_case(arg):
                     by_bytes[key]["modes"].append([r["mode"], r["lvl"]])
                     continue
                 by_bytes[key] = o
-                P, uns2 = project_layout(layout_tables(r["res"]), gmap, adv=advs)
+                P, uns2 = project_layout(fill_optional_values(layout_tables(r["res"])), gmap, adv=advs)
+                prune_empty(P)
                 uns = uns + [u for u in uns2 if u not in uns]
                 o["sameM"] = P == M
                 o["P"] = {} if o["sameM"] else P
